@@ -1,8 +1,9 @@
 SPECIFICATION Spec
-CONSTANT Ploidies = {2, 4}
-CONSTANT AlleleCounts = {2, 3}
+CONSTANT Ploidies = {8}
+CONSTANT AlleleCounts = {4}
 CONSTANT MaxReads = 2
 CONSTANT MaxCount = 2
+CONSTANT Fs <- FsZero
 INVARIANT WeightsPositive
 INVARIANT HomozygotesListed
 INVARIANT GapIsNeutral
